@@ -16,6 +16,7 @@ TRACE_FILES = (
     'forml/runtime/_service/prediction.py',
     'forml/application/_strategy.py',
     'forml/application/_descriptor.py',
+    'forml/provider/gateway/rest.py',
 )
 TRACE_ENTRY_FILES = (  # pre-emption at function entry only (cheap): enough to interleave registry reads
     'forml/io/asset/_access.py',
